@@ -984,7 +984,7 @@ esl_sq_GuessAlphabet(ESL_SQ *sq, int *ret_type)
   for (x = 0; x < 26; x++) ct[x] = 0;
   for (i = 0; i < sq->n; i++) {
     x = toupper(sq->seq[i]) - 'A';
-    if (x < 0 || x > 26) continue;
+    if (x < 0 || x >= 26) continue;   /* ct[] has 26 counters: '[' is 'A'+26 */
     ct[x]++;
     n++;
     if (n > 10000) break;	/* we oughta know by now! */
